@@ -1012,6 +1012,23 @@ pub fn gen_options(rng: &mut Rng, mentioned: &[String]) -> CliOptions {
             rename,
         });
     }
+    if !o.crates.is_empty() && rng.chance(1, 5) {
+        // the same crate named again with another version / rename: like repeated
+        // `with_crate` calls, the later specifier replaces the earlier one
+        let mut again = o.crates[0].clone();
+        again.version = match again.version.as_str() {
+            "*" => "!".to_string(),
+            "!" => "*".to_string(),
+            _ => rng.pick(&["*", "!", "9.9.9"]).to_string(),
+        };
+        if rng.chance(1, 2) {
+            again.rename = match &again.rename {
+                Some(_) => None,
+                None => Some("alt_2".to_string()),
+            };
+        }
+        o.crates.push(again);
+    }
     o.unknown_crates = match rng.below(5) {
         0 => Some("generate".into()),
         1 => Some("allow".into()),
